@@ -145,7 +145,11 @@ package frame
 //@   modifies nothing
 
 //@ func frame.Copy (dst, src) (n)
-//@   requires wf(dst) && wf(src) && distinctCols(dst) && crossOK(dst, src) && implies(compatible(dst, src), sizesAgree(dst, src))
+//@   requires wf-dst: wf(dst)
+//@   requires wf-src: wf(src)
+//@   requires distinct: distinctCols(dst)
+//@   requires cross: crossOK(dst, src)
+//@   requires sizes: implies(compatible(dst, src), sizesAgree(dst, src))
 //@   flag nlarith
 //@   panics_if !compatible(dst, src)
 //@   ensures  count: implies(len(dst.data) >= 1, n == min(dst.len, src.len)) && implies(len(dst.data) == 0, n == 0 || n == 1)   -- (frames without columns report 0 rows unless both have length 1)
@@ -317,10 +321,52 @@ package frame
 //@   requires wf(f) && distinctCols(f) && forall(k, 0, len(f.data), typeOut(boxed(f, slicetype.Type), k) == f.data[k].typ.Type) && len(f.data) >= 1
 //@   flag nlarith
 //@   panics_if need < 0
-//@   ensures  bounds: i0 == f.len && i1 == f.len + need && g.len == i1 && g.len <= g.cap && g.prefix == f.prefix && len(g.data) == len(f.data)
+//@   ensures  bounds: i0 == f.len && i1 == f.len + need && g.len == i1 && g.len <= g.cap && g.prefix == f.prefix && len(g.data) == len(f.data) && colClock >= old(colClock)
 //@   ensures  wf(g) && distinctCols(g)
 //@   ensures  in-place-when-it-fits: implies(f.len + need <= f.cap, g.data == f.data && g.off == f.off && g.cap == f.cap && ColMem == old(ColMem))
 //@   ensures  rows-kept: forall(k, 0, len(f.data), forall(r, 0, f.len, ColMem[g.data[k].ptr][g.off + r] == old(ColMem[f.data[k].ptr][f.off + r])))
 //@   ensures  old-storage-untouched: forall(k, 0, len(f.data), ColMem[f.data[k].ptr] == old(ColMem[f.data[k].ptr]))
+//@   ensures  same-types: forall(k, 0, len(f.data), g.data[k].typ.Type == f.data[k].typ.Type)
+//@   ensures  existing-storage-untouched: forall(c, implies(colStamp(Ref(c)) <= old(colClock), ColMem[Ref(c)] == old(ColMem[Ref(c)])))
+//@   ensures  same-or-fresh-columns: (g.data == f.data && g.off == f.off) || forall(k, 0, len(g.data), colStamp(g.data[k].ptr) > old(colClock))
 //@   modifies ColMem, colClock
 //@   loop 1 invariant m >= f.cap && m > 0 && i0 == f.len && i1 == i0 + need && i1 > f.cap && need >= 0
+
+//@ func frame.Frame.Grow
+//@   requires wf(f) && distinctCols(f) && forall(k, 0, len(f.data), typeOut(boxed(f, slicetype.Type), k) == f.data[k].typ.Type) && len(f.data) >= 1
+//@   panics_if n < 0
+//@   ensures  wf(result) && distinctCols(result) && result.len == f.len + n && result.prefix == f.prefix && len(result.data) == len(f.data) && colClock >= old(colClock)
+//@   ensures  rows-kept: forall(k, 0, len(f.data), forall(r, 0, f.len, ColMem[result.data[k].ptr][result.off + r] == old(ColMem[f.data[k].ptr][f.off + r])))
+//@   ensures  old-storage-untouched: forall(k, 0, len(f.data), ColMem[f.data[k].ptr] == old(ColMem[f.data[k].ptr]))
+//@   ensures  same-types: forall(k, 0, len(f.data), result.data[k].typ.Type == f.data[k].typ.Type)
+//@   ensures  existing-storage-untouched: forall(c, implies(colStamp(Ref(c)) <= old(colClock), ColMem[Ref(c)] == old(ColMem[Ref(c)])))
+//@   ensures  same-or-fresh-columns: (result.data == f.data && result.off == f.off) || forall(k, 0, len(result.data), colStamp(result.data[k].ptr) > old(colClock))
+//@   modifies ColMem, colClock
+
+//@ func frame.Frame.Ensure
+//@   requires wf(f) && distinctCols(f) && forall(k, 0, len(f.data), typeOut(boxed(f, slicetype.Type), k) == f.data[k].typ.Type) && len(f.data) >= 1 && n >= 0
+//@   ensures  wf(result) && result.len == n && result.prefix == f.prefix && len(result.data) == len(f.data) && colClock >= old(colClock)
+//@   ensures  same-view-when-it-fits: implies(n <= f.cap, result.data == f.data && result.off == f.off && ColMem == old(ColMem))
+//@   ensures  rows-kept-in-place: implies(n <= f.cap, forall(k, 0, len(f.data), forall(r, 0, f.len, implies(r < n, ColMem[result.data[k].ptr][result.off + r] == old(ColMem[f.data[k].ptr][f.off + r])))))
+//@   ensures  rows-kept-grown: implies(n > f.cap, forall(k, 0, len(f.data), forall(r, 0, f.len, ColMem[result.data[k].ptr][result.off + r] == old(ColMem[f.data[k].ptr][f.off + r]))))
+//@   modifies ColMem, colClock
+
+//@ func frame.Frame.SliceHeader
+//@   requires wf(f) && 0 <= i && i < len(f.data)
+//@   flag nlarith
+//@   ensures  view: result.Len == f.len && result.Cap == f.cap && Ref(result.Data) == padd(f.data[i].ptr, nlmul(f.off, f.data[i].typ.size))
+//@   modifies nothing
+
+//@ func frame.Frame.Out
+//@   panics_if i < 0 || i >= len(f.data)
+//@   ensures result == f.data[i].typ.Type
+//@   modifies nothing
+
+//@ func frame.AppendFrame
+//@   requires wf(src) && distinctCols(src) && implies(dst.data != nil, wf(dst) && distinctCols(dst) && len(dst.data) >= 1 && compatible(dst, src) && sizesAgree(dst, src) && crossOK(dst, src) && forall(k, 0, len(dst.data), typeOut(boxed(dst, slicetype.Type), k) == dst.data[k].typ.Type))
+//@   requires implies(dst.data == nil, len(src.data) >= 1 && forall(k, 0, len(src.data), typeOut(boxed(src, slicetype.Type), k) == src.data[k].typ.Type && typeSize(src.data[k].typ.ptr) == rtSize(src.data[k].typ.Type)))
+//@   flag nlarith
+//@   ensures  length: result.len == ite(dst.data == nil, 0, dst.len) + src.len && wf(result)
+//@   ensures  appended: forall(k, 0, len(result.data), forall(r, 0, src.len, ColMem[result.data[k].ptr][result.off + ite(dst.data == nil, 0, dst.len) + r] == old(ColMem[src.data[k].ptr][src.off + r])))
+//@   ensures  prefix-kept: implies(dst.data != nil, forall(k, 0, len(dst.data), forall(r, 0, dst.len, ColMem[result.data[k].ptr][result.off + r] == old(ColMem[dst.data[k].ptr][dst.off + r]))))
+//@   modifies ColMem, colClock
